@@ -177,6 +177,39 @@ theorem C06_aborts_at_deadline_pre_post_exact (limit : Option Nat) (respCap tcap
   intro en hen k hk hkey hdue hrem
   exact basePollNext_due_gone C16_server_flags hn fuel hi hq ⟨en, hen, rfl, rfl, k, hk, hkey, hdue, hrem⟩ h
 
+/-! ### the wake-up -/
+
+/-- **After an idle poll, the next tick wakes the server task.**  Let `Requests::poll_next` of a channel without limiter
+have ended `Pending` at clock `now` from a reachable state (clock below `2^35` ms), leaving state `p`.  Then in every later
+state `s1` of a live, un-dropped stream whose timer queue is still the one the poll left behind (the executions, the
+application and the transport do not touch it), as soon as the clock reaches the tick of any tracked request's timer
+(`now'`), the timer wakes the server task: `(onAdvance s1 now').woken = true`.  So an expiry never waits for an unrelated
+event to be noticed; the poll that follows aborts the handler (`C06_aborts_at_deadline`, `C06_deadline_passed_gone`). -/
+theorem C06_idle_then_tick_wakes_server (respCap tcap : Nat) (coupled : Bool) (ops : List SOp)
+    (hT : advSum ops < 2 ^ 35 * nsPerMs) (fuel : Nat)
+    (c : Sys) (hc : c = ops.foldl applyOp (initSys none respCap tcap coupled))
+    (h : (requestsPollNext fuel c.s c.now).2 = .pending ∨ (requestsPollNext fuel c.s c.now).2 = .none)
+    (s1 : St) (hs1 : s1.timers = (requestsPollNext fuel c.s c.now).1.timers)
+    (halive : s1.dropped = false ∧ s1.done = none)
+    (k : Nat × Nat × Nat) (hk : k ∈ s1.timers.cores) (now' : Nat) (hdue : k.2.2 * nsPerMs ≤ now') :
+    (onAdvance s1 now').woken = true := by
+  subst hc
+  have hnow : (ops.foldl applyOp (initSys none respCap tcap coupled)).now = advSum ops := by
+    rw [foldl_applyOp_now]; exact Nat.zero_add _
+  have hn : (ops.foldl applyOp (initSys none respCap tcap coupled)).now < panicFreeNs := by rw [hnow]; exact hT
+  have hq := qc_reach C16_server_flags none respCap tcap coupled ops
+  have hl : (ops.foldl applyOp (initSys none respCap tcap coupled)).s.limit = none :=
+    (cfg_reach (initSys none respCap tcap coupled) ops).2.1
+  have hi := requestsPollNext_idle_timers C16_server_flags hn fuel _ hl hq h
+  rw [← hs1] at hi
+  obtain ⟨e, he, rfl⟩ := DelayQ.mem_cores_iff.1 hk
+  obtain ⟨t, ht, hw⟩ := hi.wakes he hdue
+  simp only [Bool.and_eq_true, decide_eq_true_eq] at hw
+  unfold onAdvance
+  simp only [ht, hw.1, hw.2, decide_true, Bool.and_self, if_true]
+  unfold wakeServer
+  simp [halive.1, halive.2, emit]
+
 /-! ### in terms of deadlines -/
 
 /-- **C06 (c): not late, in terms of the deadline.**  After `BaseChannel::poll_next` has gone idle at clock `now` (clock
